@@ -1402,7 +1402,14 @@ impl<B> StreamRef<B> {
 
         me.actions
             .send
-            .reserve_capacity(capacity, &mut stream, &mut me.counts)
+            .reserve_capacity(capacity, &mut stream, &mut me.counts);
+
+        // Lowering the reservation releases connection capacity, which may be
+        // assigned to another stream that has data buffered. That stream is
+        // then queued for sending, so the connection task must be notified.
+        if let Some(task) = me.actions.task.take() {
+            task.wake();
+        }
     }
 
     /// Returns the stream's current send capacity.
